@@ -44,6 +44,48 @@ func vOpenEvent() (*Event, vState) {
 func vCheckEvent(name string, e *Event, st vState, res *Event) {
 	zzverif.Assert(res == e, name+": returns its receiver")
 	vCheckBuf(name, e.buf, st)
+	vCheckOwned(name, e.buf)
+}
+
+// vPoolAliases: does any of the next few pooled events share its buffer with b?
+func vPoolAliases(b []byte) bool {
+	var got []*Event
+	bad := false
+	for i := 0; i < 6; i++ {
+		x := eventPool.Get().(*Event)
+		got = append(got, x)
+		if zzverif.SameBacking(x.buf, b) {
+			bad = true
+		}
+	}
+	for i := len(got) - 1; i >= 0; i-- {
+		eventPool.Put(got[i])
+	}
+	return bad
+}
+
+// vArrayPoolAliases: the same for the array pool.
+func vArrayPoolAliases(b []byte) bool {
+	var got []*Array
+	bad := false
+	for i := 0; i < 4; i++ {
+		x := arrayPool.Get().(*Array)
+		got = append(got, x)
+		if zzverif.SameBacking(x.buf, b) {
+			bad = true
+		}
+	}
+	for i := len(got) - 1; i >= 0; i-- {
+		arrayPool.Put(got[i])
+	}
+	return bad
+}
+
+// vCheckOwned: part of the step invariant. After a field method returned, the buffer it
+// appended to is owned by its event / array / context alone: no pooled helper object still
+// refers to it (the next step, or another goroutine, would write into it).
+func vCheckOwned(name string, b []byte) {
+	zzverif.Assert(!vPoolAliases(b) && !vArrayPoolAliases(b), name+": no pooled helper event or array keeps a reference to the buffer that was appended to")
 }
 
 func vOpenContext() (Context, vState) {
@@ -56,6 +98,7 @@ func vOpenContext() (Context, vState) {
 func vCheckContext(name string, c Context, st vState, res Context) {
 	zzverif.Assert(zzverif.EqualBytes(c.l.context, st.pre), name+": receiver's context bytes unchanged")
 	vCheckBuf(name, res.l.context, st)
+	vCheckOwned(name, res.l.context)
 }
 
 // ---- global settings (symbolic / chosen) ----
